@@ -91,7 +91,12 @@ def mismatch_key(m):
     diff = ",".join(m.get("diff", []))
     if "reply" in m.get("diff", []):
         diff = "reply"          # the other differences follow from the different answer
-    ctxv = ",".join(str(x) for x in m.get("ctx", []))
+    ctxl = [str(x) for x in m.get("ctx", [])]
+    if op in ("read", "dread", "write", "stat", "wstat"):
+        ctxl = ctxl[:1]         # opened or not
+    elif op in ("clunk", "remove"):
+        ctxl = ctxl[2:]         # what the path is now
+    ctxv = ",".join(ctxl)
     det = ""
     if op == "walk":
         names = a[3]
